@@ -33,4 +33,13 @@ PROPS = {
         "assumptions": ["Rust wrapping_add/sub/mul, <<, >>, ^, ! on u32/u64 are BitVec +,-,*,<<<,>>>,^^^,~~~"],
         "theorems": ["PMH.C19.int64_inverse_hash", "PMH.C19.int64_hash_inverse_id", "PMH.C19.int32_inverse_hash", "PMH.C19.int32_hash_inverse_id"],
     },
+    "C17": {
+        "module": "PMH.Props.C17",
+        "level_text": "full in exact arithmetic: for the array-with-cursor model of FYshuffle and every in-range offset sequence: no index panic and the array stays a permutation (next_inv); from a block boundary m draws return each of 0..m-1 once and leave the state at a block boundary, so every further block is a permutation (block_is_perm); reset forgets everything and draws like new (reset_forgets, reset_like_new); offsets <-> orders is a bijection (exists-unique, offsets_bijective) hence uniform offsets give each of the m! orders equally often; floor(xsi*n) is in range and uniform for xsi uniform in [0,1). The real FYshuffle::next is driven by a scripted RngCore so model and code consume the same 64-bit words; every returned value and the whole array are compared after every draw.",
+        "level_note": "trusted: Lean kernel, Mathlib list/perm/floor lemmas, hand-written model + correspondence; the f64 product xsi*(m-lastidx) is executed identically by model (Lean Float) and code and checked exhaustively at the only critical point xsi=1-2^-52; theorems are about the real-number floor",
+        "rule": "scripted 64-bit words (0, 2^64-1 [xsi=1-2^-52], high-bit patterns, random) drive the real FYshuffle: 0..3m draws, reset, then >= 2m draws compared draw-by-draw with a fresh instance fed the same words (history independence) and with the model (value + whole array); plus Xoshiro256++/SplitMix64/Uniform<f64,f32,usize,u64> re-implementations against the crates; non-trivial = m>1; distinct = distinct script",
+        "trusted_base": TB_COMMON + ["IEEE product xsi*n computed by the same hardware in model and code; theorem about the exact floor"],
+        "assumptions": ["generator outputs are arbitrary 64-bit words (theorems quantify over all offset sequences in range)", "uniformity statement is relative to uniform offsets (ideal generator)"],
+        "theorems": ["PMH.C17.next_inv", "PMH.C17.block_is_perm", "PMH.C17.reset_forgets", "PMH.C17.reset_like_new", "PMH.C17.offsets_bijective", "PMH.C17.floor_offset_lt"],
+    },
 }
